@@ -50,6 +50,10 @@ Proof.
   apply D. vm_compute. reflexivity.
 Qed.
 
+(* every generated wrapper callon<name> calls its own action function on<name> *)
+Lemma wrappers_call_their_action : go_wrapper_mismatches = [].
+Proof. reflexivity. Qed.
+
 (* literal matchers: the `want` string (used in error messages only) is the quoted literal *)
 Lemma wants_are_quoted_literals : go_want_mismatches = [].
 Proof. reflexivity. Qed.
